@@ -17,6 +17,8 @@ def run(R, tier, seed, only=None):
     kchecks.check_sstr(R, drv, tier)
     import strlex
     strlex.check_strlex_total(R, drv, tier)
+    import sqlstr
+    sqlstr.check_litnum(R, drv, tier, want=("panic",))
     drv.close()
     R.cov.setdefault("bounds", {}).update({"take_ranges": "k <= 2 (quick) / 3 (thorough) consecutive takes, every bound any i64 or absent", "integers": "64-bit bit-vectors, overflow checks on (dev profile)"})
     R.cov["traces_validated_against_impl"] = R.cov["queries"].get("sat", 0)
